@@ -14,6 +14,7 @@ import (
 	_ "verif/props/c10"
 	_ "verif/props/c11"
 	_ "verif/props/c12"
+	_ "verif/props/c13"
 	_ "verif/props/c14"
 	_ "verif/props/c15"
 	_ "verif/props/c16"
